@@ -61,6 +61,7 @@ const mainKey = "cpu,host=a#!~#v"
 var typNames = []string{"float", "integer", "unsigned", "string", "boolean"}
 var tmpRoot string
 var dirSeq int
+var extremeFlip bool
 var proc, procs = 0, 1 // VERIF_PROC / VERIF_PROCS: this process's share of the exhaustive enumeration
 
 func must(err error) {
@@ -400,18 +401,11 @@ func run(w *vh.W, c *jcase) {
 	}
 	term := fmt.Sprintf("{| c_files := %s; c_qs := %s |}", vh.List(fterms), vh.List(qterms))
 	// non-trivial: at least two blocks of different files overlap in time, or a tombstone applies
-	// Known boundary defect (never generated; reachable only through an explicit -replay): a seek at
-	// MinInt64 (ascending) / MaxInt64 (descending) makes t-1 / t+1 wrap in FileStore.locations.
 	sig := ""
 	if nblocks > 12 {
 		// Known defect, shape decided from the input: more than 12 blocks of the key, so sort.Sort is pdqsort
 		// and the non-transitive Less may leave overlapping blocks out of generation order.
 		sig = "over-12-locations-sort-breaks-newest-wins"
-	}
-	for _, t := range c.Seeks {
-		if t == math.MinInt64 || t == math.MaxInt64 {
-			sig = "seek-at-int64-extreme-wraps"
-		}
 	}
 	w.Add(term, c, overlapPairs > 0 || len(c.Dels) > 0, sig)
 	w.Count("type", typNames[c.Typ])
@@ -470,9 +464,6 @@ func seeksFor(c *jcase, r interface{ IntN(int) int }, max int) []int64 {
 	set := map[int64]bool{}
 	cand := []int64{}
 	add := func(t int64) {
-		if t <= math.MinInt64+1 || t >= math.MaxInt64 { // stay within [MinNanoTime, MaxNanoTime]
-			return
-		}
 		if !set[t] {
 			set[t] = true
 			cand = append(cand, t)
@@ -495,7 +486,14 @@ func seeksFor(c *jcase, r interface{ IntN(int) int }, max int) []int64 {
 		i := r.IntN(len(cand))
 		cand = append(cand[:i], cand[i+1:]...)
 	}
-	cand = append(cand, math.MinInt64+2, math.MaxInt64-1)
+	// extremes: MinNanoTime / MaxNanoTime and, alternating, MinInt64 / MaxInt64 themselves (where the
+	// unguarded t-1 / t+1 in FileStore.locations used to wrap: repaired finding seek-at-int64-extreme-wraps)
+	extremeFlip = !extremeFlip
+	if extremeFlip {
+		cand = append(cand, math.MinInt64, math.MaxInt64-1)
+	} else {
+		cand = append(cand, math.MinInt64+2, math.MaxInt64)
+	}
 	sort.Slice(cand, func(i, j int) bool { return cand[i] < cand[j] })
 	return cand
 }
@@ -626,6 +624,10 @@ func corpus() []jcase {
 	for i := range cs {
 		cs[i].Seeks = seeksFor(&cs[i], nil, 1000)
 	}
+	// both int64 extremes (and their neighbours) on one layout
+	ex := mk(1, nil, F(B(0, 1, 2)), F(B(1, 5)))
+	ex.Seeks = []int64{math.MinInt64, math.MinInt64 + 1, 1, math.MaxInt64 - 1, math.MaxInt64}
+	cs = append(cs, ex)
 	return cs
 }
 
@@ -699,7 +701,7 @@ func main() {
 		"one file in six is block-aligned with its predecessor; NEVER more than 12 blocks in total because sort.Sort is insertion sort " +
 		"only up to 12 elements and the model mirrors that), 0-3 delete ranges applied through TSMFile.DeleteRange or FileStore.DeleteRange " +
 		"(some snapped to a block's exact range, some reaching MinInt64/MaxInt64), an optional second key widening the file time range; " +
-		"queries: up to 12 seek times (block and tombstone boundaries +-1, MinNanoTime, MaxNanoTime; MinInt64 itself is never used: t-1 wraps in locations) " +
+		"queries: up to 12 seek times (block and tombstone boundaries +-1 and two extremes, alternating between {MinInt64, MaxNanoTime} and {MinNanoTime, MaxInt64}: the int64 extremes are where t-1 / t+1 used to wrap in locations) " +
 		"x both directions, each drained with Read<T>Block+Next and Read<T>ArrayBlock+Next; value type rotates over the five types. " +
 		"One generated layout in eight is deliberately OUTSIDE that limit (13-30 blocks, known-finding shape over-12-locations-sort-breaks-newest-wins): there the mirror runs on the seeks order the real sort produced " +
 		"(reported through the verif-only accessor KeyCursor.VerifSeeks) and the oracle decides. For <=12 locations the reported order must equal the model's insertion sort. " +
